@@ -626,6 +626,207 @@ class _Inliner:
         return [asg, st]
 
 
+# ---------------------------------------------------------------------------
+# N-swap: `a, b = x, y`  ->  `a = x; b = y`      (take-and-clear written as a tuple swap)
+
+
+def _split_tuple_assign(st: ast.stmt) -> Optional[List[ast.stmt]]:
+    if not (isinstance(st, ast.Assign) and len(st.targets) == 1 and isinstance(st.targets[0], ast.Tuple) and isinstance(st.value, ast.Tuple)):
+        return None
+    ts, vs = st.targets[0].elts, st.value.elts
+    if len(ts) != len(vs) or any(isinstance(x, ast.Starred) for x in ts + vs) or len(ts) < 2:
+        return None
+    for i, t in enumerate(ts):
+        td = q.dotted(t)
+        if td is None:
+            return None
+        for v in vs[i + 1:]:
+            for x in ast.walk(v):
+                d = q.dotted(x) if isinstance(x, (ast.Name, ast.Attribute)) else None
+                if d and (d == td or d.startswith(td + ".") or td.startswith(d + ".")):
+                    return None
+            if any(isinstance(x, (ast.Call, ast.Await)) for x in ast.walk(v)):
+                return None
+    # right-hand sides are all evaluated first: sequential assignment is equivalent when no later value
+    # reads an earlier target (checked above) and values have no calls
+    if any(isinstance(x, (ast.Call, ast.Await)) for v in vs for x in ast.walk(v)):
+        return None
+    return [ast.copy_location(ast.Assign(targets=[t], value=v), st) for t, v in zip(ts, vs)]
+
+
+def _pass_split_swaps(fn) -> bool:
+    changed = False
+    for node in ast.walk(fn):
+        for fld in ("body", "orelse", "finalbody"):
+            b = getattr(node, fld, None)
+            if not (isinstance(b, list) and b and isinstance(b[0], ast.stmt)):
+                continue
+            i = 0
+            while i < len(b):
+                rep = _split_tuple_assign(b[i])
+                if rep is not None:
+                    b[i:i + 1] = rep
+                    i += len(rep)
+                    changed = True
+                else:
+                    i += 1
+    return changed
+
+
+# ---------------------------------------------------------------------------
+# N-alias: a local bound once to an attribute path of self that is not re-bound while the local is in use
+# is replaced by the path ("values threaded through locals instead of re-reading attributes")
+
+
+def _method_writes(cls: Optional[ast.ClassDef], name: str, seen: Optional[Set[str]] = None) -> Optional[Set[str]]:
+    """self attributes a method of ``cls`` may (re)bind, transitively through self calls; None if unknown"""
+    if cls is None:
+        return None
+    seen = seen if seen is not None else set()
+    if name in seen:
+        return set()
+    seen.add(name)
+    m = next((x for x in cls.body if isinstance(x, FuncNode) and x.name == name), None)
+    if m is None:
+        return None
+    out: Set[str] = set()
+    for n in _own_walk(m):
+        if isinstance(n, (ast.Assign, ast.AugAssign, ast.AnnAssign, ast.Delete)):
+            out |= {p for p in q.assigned_paths(n) if p.startswith("self.") and not p.endswith("[]")}
+        elif isinstance(n, ast.Call) and isinstance(n.func, ast.Attribute) and q.dotted(n.func.value) == "self":
+            w = _method_writes(cls, n.func.attr, seen)
+            if w is None:
+                if n.func.attr not in ("closed", "reading", "writing", "fileno"):
+                    return None
+            else:
+                out |= w
+    return out
+
+
+def _pass_alias(fn, cls: Optional[ast.ClassDef]) -> bool:
+    from .cfg import build
+
+    params = {a.arg for a in fn.args.posonlyargs + fn.args.args + fn.args.kwonlyargs}
+    stores: Dict[str, List[ast.stmt]] = {}
+    for n in _own_walk(fn):
+        if isinstance(n, (ast.Assign, ast.AnnAssign, ast.AugAssign, ast.For, ast.AsyncFor, ast.With, ast.AsyncWith, ast.Delete, ast.NamedExpr)):
+            for p in q.assigned_paths(n):
+                if "." not in p and "[" not in p:
+                    stores.setdefault(p, []).append(n)
+        elif isinstance(n, ast.ExceptHandler) and n.name:
+            stores.setdefault(n.name, []).append(n)
+    cands = []
+    for name, sts in stores.items():
+        if name in params or len(sts) != 1:
+            continue
+        st = sts[0]
+        if not (isinstance(st, ast.Assign) and len(st.targets) == 1 and isinstance(st.targets[0], ast.Name)):
+            continue
+        d = q.dotted(st.value) if isinstance(st.value, ast.Attribute) else None
+        if not d or not d.startswith("self.") or d.count(".") > 2:
+            continue
+        # used inside a nested scope (lambda / def)? keep
+        nested_use = False
+        for n in ast.walk(fn):
+            if isinstance(n, (ast.Lambda,) + FuncNode) and n is not fn:
+                if any(isinstance(x, ast.Name) and x.id == name for x in ast.walk(n)):
+                    nested_use = True
+        if nested_use:
+            continue
+        cands.append((name, st, d))
+    if not cands:
+        return False
+    try:
+        cfg = build(fn)
+    except Exception:
+        return False
+    changed = False
+    for name, st, d in cands:
+        defs = [n for n in cfg.stmt_nodes() if n.kind == "stmt" and n.ast is st]
+        if len(defs) != 1:
+            continue
+        dn = defs[0]
+        # nodes reachable after the definition
+        reach: Set[int] = set()
+        work = [dn.id]
+        while work:
+            x = work.pop()
+            for y, _k in cfg.succ[x]:
+                if y not in reach:
+                    reach.add(y)
+                    work.append(y)
+        if dn.id in reach:
+            continue  # definition inside a loop
+        uses = []
+        for n in cfg.stmt_nodes():
+            if n.ast is None:
+                continue
+            roots = [n.ast] if n.kind in ("stmt", "test") else ([n.ast.iter] if n.kind == "for" else [it.context_expr for it in n.ast.items] if n.kind == "with" else [])
+            if any(isinstance(x, ast.Name) and x.id == name and isinstance(x.ctx, ast.Load) for r in roots for x in q.walk_local(r)):
+                uses.append(n)
+        if not uses or any(u.id not in reach for u in uses):
+            continue
+        # a node that may re-bind the path (or a prefix): direct store, self call writing it, suspension
+        attr2 = ".".join(d.split(".")[:2])
+
+        def clobbers(n) -> bool:
+            if n.ast is None or n.kind not in ("stmt", "test", "for", "with"):
+                return False
+            if n.suspends:
+                return True
+            if isinstance(n.ast, ast.stmt) and n.kind == "stmt":
+                for p in q.assigned_paths(n.ast):
+                    p0 = p[:-2] if p.endswith("[]") else p
+                    if not p.endswith("[]") and (p0 == d or d.startswith(p0 + ".")):
+                        return True
+            roots = [n.ast] if n.kind in ("stmt", "test") else []
+            for r in roots:
+                for x in q.walk_local(r):
+                    if isinstance(x, ast.Call) and isinstance(x.func, ast.Attribute) and q.dotted(x.func.value) == "self":
+                        w = _method_writes(cls, x.func.attr)
+                        if w is None or any(p == attr2 or p == d or d.startswith(p + ".") for p in w):
+                            return True
+            return False
+
+        bad_nodes = {n.id for n in cfg.nodes if n.id in reach and clobbers(n)}
+        # no use may be reachable from a clobbering node (the clobbering node itself may not use the alias either)
+        after_bad: Set[int] = set(bad_nodes)
+        work = list(bad_nodes)
+        while work:
+            x = work.pop()
+            for y, _k in cfg.succ[x]:
+                if y not in after_bad:
+                    after_bad.add(y)
+                    work.append(y)
+        if any(u.id in after_bad for u in uses):
+            continue
+        # substitute
+        path_expr = st.value
+
+        class T(ast.NodeTransformer):
+            def visit_Name(self, node):
+                if node.id == name and isinstance(node.ctx, ast.Load):
+                    return ast.copy_location(copy.deepcopy(path_expr), node)
+                return node
+
+            def visit_Lambda(self, node):
+                return node
+
+        for fld in ("body",):
+            fn.body = [T().visit(s_) if s_ is not st else s_ for s_ in fn.body]
+        # remove the definition
+        for node in ast.walk(fn):
+            for fld in ("body", "orelse", "finalbody"):
+                b = getattr(node, fld, None)
+                if isinstance(b, list) and st in b:
+                    if len(b) == 1:
+                        b[b.index(st)] = ast.copy_location(ast.Pass(), st)
+                    else:
+                        b.remove(st)
+        changed = True
+    return changed
+
+
 def inline_tree(tree: ast.Module, keep: Iterable[str]) -> ast.Module:
     tree = copy.deepcopy(tree)
     mod = _Module(tree, set(keep))
@@ -645,6 +846,12 @@ def inline_tree(tree: ast.Module, keep: Iterable[str]) -> ast.Module:
         for sub in [x for x in ast.walk(fn) if isinstance(x, FuncNode) and x is not fn]:
             si = _Inliner(mod, cls, sub, budget=8)
             sub.body = si.block(sub.body)
+    for cls, fn in units:
+        try:
+            _pass_split_swaps(fn)
+            _pass_alias(fn, cls)
+        except RecursionError:
+            pass
     # a helper whose every call was inlined is no longer part of the program the rules look at
     def refs(name: str, skip) -> int:
         k = 0
